@@ -542,6 +542,14 @@ func init() {
 		e.sc.assume(sx("<=", sx("s_len", res.Tup[0].T), ite(sx(">", args[1].T, "0"), args[1].T, "0")), "bufio.Reader.Peek(n): at most n bytes")
 		return res
 	})
+	// reads into a caller-supplied buffer: 0 <= n <= len(buf)
+	reg([]string{"(*net.UDPConn).ReadFrom", "(*net.UDPConn).Read", "(*net.TCPConn).Read", "(*net.conn).Read"}, []string{"@args"}, func(e *Eng, fr *Frame, c *ssa.CallCommon, args []*Val, st *State, g string, pos token.Pos) *Val {
+		e.nilCheck(fr, nil, args[0].T, "recv:"+descr(c.Args[0], 0), pos, g)
+		e.havocThrough(st, args[1])
+		res := e.havocResults(c, st)
+		e.sc.assume(and(sx("<=", "0", res.Tup[0].T), sx("<=", res.Tup[0].T, sx("s_len", args[1].T))), "Read/ReadFrom: 0 <= n <= len(buf)")
+		return res
+	})
 	reg([]string{"io.ReadFull", "io.ReadAtLeast"}, []string{"@args"}, func(e *Eng, fr *Frame, c *ssa.CallCommon, args []*Val, st *State, g string, pos token.Pos) *Val {
 		e.havocThrough(st, args[1])
 		res := e.havocResults(c, st)
